@@ -228,6 +228,24 @@ CLAIMED["C11"] = (
     "Trusted: Lean kernel; standard axioms; harness; astropy.wcs/wcslib as the standard reader. Runtime behaviour not modelled: float rounding in linspace/reader (1e-9 relative).",
     "Lean 4 proofs (loop invariant induction; rational arithmetic of the -TAB index) + header correspondence + end-to-end comparison through the standard FITS reader", "DESIGN.md §6 C11")
 
+CLAIMED["C10"] = (
+    "Lean 4 theorems: (degree search of _fit_2D_poly over an abstract per-degree fit outcome) when the search ends without the "
+    "'failed to achieve' warning the returned degree meets the request, carries its own coefficients and every permitted degree tried "
+    "before it missed the request - the lowest permitted degree (search_no_warning_minimal, fit2D_no_warning_minimal); if no permitted "
+    "degree meets it the warning is set (all_fail_warns); the permitted degrees are tried in increasing order whatever order the caller "
+    "lists them in (degList_perm, insertion sort = permutation + sorted); an explicit degree ignores the requested error; the reported "
+    "error is the max of the residuals on both grids. (SIP split) for every degree, all coefficients and det CD != 0, "
+    "CD.(u + A(u,v), v + B(u,v)) equals the fitted polynomials exactly (reform_sound); zero offset maps to zero intermediate coordinates "
+    "(reference pixel -> reference value); which A_i_j/AP_i_j keywords are written (stored_iff). PARTIAL: the least-squares solve, that "
+    "the fit achieves its error BETWEEN nodes, and wcslib are exercised, not proved. Tied to gwcs by exact correspondence of "
+    "_fit_2D_poly with scripted fit outcomes (degree, coefficient degree, reported error, all three warnings, errors), of "
+    "_reform_poly_coefficients/_store_2D_coefficients on random dyadic polynomials, of the Lean sipEval with the returned header "
+    "(exact rationals), and end to end: to_fits_sip on generated WCS read by astropy.wcs and an independent SIP evaluator on a dense "
+    "sample against max_pix_error, SIPMXERR, SIPIVERR (inverse from true sky positions), CRPIX/CRVAL, NAXIS, CTYPE/RADESYS, and a re-run "
+    "at the next lower permitted degree.",
+    "Trusted: Lean kernel; standard axioms; harness (SIP evaluator, dense sample, allowance: 2x requested error, 5x recorded error as in the method's own double-sampling check); astropy.wcs/wcslib.",
+    "Lean 4 proofs (induction over the degree search; polynomial identity over lists of monomials) + exact scripted correspondence + end-to-end dense-sample comparison", "DESIGN.md §6 C10")
+
 NOT_YET = "check not built yet in this round; will be claimed once its Lean model, theorems and correspondence run green"
 
 
